@@ -15,6 +15,8 @@ request   (checkcache none|cse|backend full|shallow <b> <b> <b> <f> <f> <f>)    
 reply     cse|single|ultimate|miss N|T|F
 request   (getcache cse|single|ultimate|miss <b> <b>)   is-error, is-valid
 reply     hit | miss
+request   (runscope <b> none|cse|backend)               run uses the cache?, scope asked for
+reply     none|cse|backend                               the scope the job's lookup is made with
 
 <expr> ::= N | T | F | i<int> | s<hex>
          | (E s<cls> s<msg>) | (C s<name>) | (F s<name>) | (T s<name>)
@@ -247,6 +249,10 @@ def cacheOp : List Sexp → Option String
     let f3 ← parseFact f3
     let (ct, e) := checkCache s cv ⟨a1, a2, a3⟩ ⟨f1, f2, f3⟩
     pure (showCt ct ++ " " ++ showFact e)
+  | [.atom "runscope", .atom u, .atom s] => do
+    let u ← parseB u
+    let s ← parseScope s
+    pure (match runScope u s with | .none => "none" | .cse => "cse" | .backend => "backend")
   | [.atom "getcache", .atom ct, .atom e, .atom v] => do
     let ct ← parseCt ct
     let e ← parseB e
@@ -271,6 +277,10 @@ def step (_ : Unit) (line : String) : Unit × String :=
     | _, _, _, _ => ((), "bad-value")
   | some [.list (.atom "checkcache" :: rest)] =>
     match cacheOp (.atom "checkcache" :: rest) with
+    | some r => ((), r)
+    | none => ((), "bad-value")
+  | some [.list (.atom "runscope" :: rest)] =>
+    match cacheOp (.atom "runscope" :: rest) with
     | some r => ((), r)
     | none => ((), "bad-value")
   | some [.list (.atom "getcache" :: rest)] =>
